@@ -641,6 +641,17 @@ func TestVerif_C16(t *testing.T) {
 		run.Count("base_status_"+base.Fields["status"], 1)
 		judge := func(hdr [][2]string, id, cell string) {
 			req, resp := j.x.do(j.ep, j.peer, hdr, id)
+			// "dial: ..." = the rig's own client could not connect to the instance's loopback listener (starved box): the proxy
+			// never saw the request — a rig failure, not behaviour of the code under test. Retried; still failing = inconclusive.
+			for try := 0; try < 2 && strings.HasPrefix(resp.Err, "dial:"); try++ {
+				run.Count("rig_dial_failures_retried", 1)
+				time.Sleep(200 * time.Millisecond)
+				req, resp = j.x.do(j.ep, j.peer, hdr, fmt.Sprintf("%s-r%d", id, try))
+			}
+			if strings.HasPrefix(resp.Err, "dial:") {
+				run.Inconclusive("rig: could not connect to the instance's listener (" + vfTrunc(resp.Err, 60) + ")")
+				return
+			}
 			obs := c16Observe(w, resp, id)
 			if j.peer == "@" {
 				run.Count("pairs_with_unix_socket_peer", 1)
